@@ -1,10 +1,11 @@
 #!/bin/bash
 # usage: mutant_confirm.sh <worktree> <ID> <mN>   - confirms: suite passes with the mutant, demo fails with it, demo passes without
 wt=$1; id=$2; m=$3
+od=out; case $m in m3|m4) od=out2;; esac
 cd $wt || exit 2
 export CARGO_TARGET_DIR=$wt/target CARGO_NET_OFFLINE=true
 git checkout -q -- main generator derive/src 2>/dev/null
-demo=$(ls $wt/out/demo_${id}_${m}.rs)
+demo=$(ls $wt/$od/demo_${id}_${m}.rs)
 # where does the demo live?
 # the delivered copy in out/ is authoritative; it goes where its header says (default derive/tests)
 place=$(grep -oE "(derive|main|generator)/tests/demo_${id}_${m}\.rs" $demo | head -1)
@@ -12,7 +13,7 @@ place=$(grep -oE "(derive|main|generator)/tests/demo_${id}_${m}\.rs" $demo | hea
 cp $demo $place
 pkg=pest_typed_derive; case $place in main/*) pkg=pest_typed;; generator/*) pkg=pest_typed_generator;; esac
 t=demo_${id}_${m}
-git apply out/$m.diff || { echo "APPLY-FAILED"; exit 2; }
+git apply $od/$m.diff || { echo "APPLY-FAILED"; exit 2; }
 suite=$(cargo test --workspace --no-fail-fast --offline 2>&1 | grep -E "^test result" | grep -v "demo" )
 # exclude demo results: run the suite result lines count of failed (demo tests are part of workspace tests; subtract)
 sf=$(cargo test --workspace --no-fail-fast --offline 2>&1 | grep -E "^test .* FAILED|failed to compile|could not compile" | grep -v "demo_" | wc -l)
